@@ -4130,6 +4130,77 @@ func (d *Document) parseAnchorDrawing(decoder *xml.Decoder, startElement xml.Sta
 				if err := d.skipElement(decoder, t.Name.Local); err != nil {
 					return nil, err
 				}
+			case "simplePos":
+				anchor.SimplePosition = &SimplePosition{
+					X: getAttributeValue(t.Attr, "x"),
+					Y: getAttributeValue(t.Attr, "y"),
+				}
+				if err := d.skipElement(decoder, t.Name.Local); err != nil {
+					return nil, err
+				}
+			case "positionH":
+				align, offset, err := d.parseAnchorPosition(decoder, t.Name.Local)
+				if err != nil {
+					return nil, err
+				}
+				anchor.PositionH = &HorizontalPosition{
+					RelativeFrom: getAttributeValue(t.Attr, "relativeFrom"),
+					Align:        align,
+					PosOffset:    offset,
+				}
+			case "positionV":
+				align, offset, err := d.parseAnchorPosition(decoder, t.Name.Local)
+				if err != nil {
+					return nil, err
+				}
+				anchor.PositionV = &VerticalPosition{
+					RelativeFrom: getAttributeValue(t.Attr, "relativeFrom"),
+					Align:        align,
+					PosOffset:    offset,
+				}
+			case "effectExtent":
+				anchor.EffectExtent = parseEffectExtentAttrs(t.Attr)
+				if err := d.skipElement(decoder, t.Name.Local); err != nil {
+					return nil, err
+				}
+			case "wrapTight":
+				polygon, _, err := d.parseWrapChildren(decoder, t.Name.Local)
+				if err != nil {
+					return nil, err
+				}
+				anchor.WrapTight = &WrapTight{
+					WrapText:    getAttributeValue(t.Attr, "wrapText"),
+					DistL:       getAttributeValue(t.Attr, "distL"),
+					DistR:       getAttributeValue(t.Attr, "distR"),
+					WrapPolygon: polygon,
+				}
+			case "wrapThrough":
+				polygon, _, err := d.parseWrapChildren(decoder, t.Name.Local)
+				if err != nil {
+					return nil, err
+				}
+				anchor.WrapThrough = &WrapThrough{
+					WrapText:    getAttributeValue(t.Attr, "wrapText"),
+					DistL:       getAttributeValue(t.Attr, "distL"),
+					DistR:       getAttributeValue(t.Attr, "distR"),
+					WrapPolygon: polygon,
+				}
+			case "wrapTopAndBottom":
+				_, effectExtent, err := d.parseWrapChildren(decoder, t.Name.Local)
+				if err != nil {
+					return nil, err
+				}
+				anchor.WrapTopAndBottom = &WrapTopAndBottom{
+					DistT:        getAttributeValue(t.Attr, "distT"),
+					DistB:        getAttributeValue(t.Attr, "distB"),
+					EffectExtent: effectExtent,
+				}
+			case "cNvGraphicFramePr":
+				framePr, err := d.parseCNvGraphicFramePr(decoder)
+				if err != nil {
+					return nil, err
+				}
+				anchor.CNvGraphicFramePr = framePr
 			default:
 				if err := d.skipElement(decoder, t.Name.Local); err != nil {
 					return nil, err
@@ -4138,6 +4209,178 @@ func (d *Document) parseAnchorDrawing(decoder *xml.Decoder, startElement xml.Sta
 		case xml.EndElement:
 			if t.Name.Local == "anchor" {
 				return anchor, nil
+			}
+		}
+	}
+}
+
+// parseAnchorPosition 解析 wp:positionH / wp:positionV 的子元素（wp:align 或 wp:posOffset）
+func (d *Document) parseAnchorPosition(decoder *xml.Decoder, endName string) (*PosAlign, *PosOffset, error) {
+	var align *PosAlign
+	var offset *PosOffset
+
+	for {
+		token, err := decoder.Token()
+		if err != nil {
+			return nil, nil, WrapError("parse_anchor_position", err)
+		}
+
+		switch t := token.(type) {
+		case xml.StartElement:
+			switch t.Name.Local {
+			case "align":
+				value, err := d.readElementText(decoder, t.Name.Local)
+				if err != nil {
+					return nil, nil, err
+				}
+				align = &PosAlign{Value: value}
+			case "posOffset":
+				value, err := d.readElementText(decoder, t.Name.Local)
+				if err != nil {
+					return nil, nil, err
+				}
+				offset = &PosOffset{Value: value}
+			default:
+				if err := d.skipElement(decoder, t.Name.Local); err != nil {
+					return nil, nil, err
+				}
+			}
+		case xml.EndElement:
+			if t.Name.Local == endName {
+				return align, offset, nil
+			}
+		}
+	}
+}
+
+// parseEffectExtentAttrs 读取 wp:effectExtent 的属性
+func parseEffectExtentAttrs(attrs []xml.Attr) *EffectExtent {
+	return &EffectExtent{
+		L: getAttributeValue(attrs, "l"),
+		T: getAttributeValue(attrs, "t"),
+		R: getAttributeValue(attrs, "r"),
+		B: getAttributeValue(attrs, "b"),
+	}
+}
+
+// parseWrapChildren 解析环绕元素（wp:wrapTight、wp:wrapThrough、wp:wrapTopAndBottom）的子元素：
+// 环绕多边形和效果范围
+func (d *Document) parseWrapChildren(decoder *xml.Decoder, endName string) (*WrapPolygon, *EffectExtent, error) {
+	var polygon *WrapPolygon
+	var effectExtent *EffectExtent
+
+	for {
+		token, err := decoder.Token()
+		if err != nil {
+			return nil, nil, WrapError("parse_wrap_children", err)
+		}
+
+		switch t := token.(type) {
+		case xml.StartElement:
+			switch t.Name.Local {
+			case "wrapPolygon":
+				polygon, err = d.parseWrapPolygon(decoder)
+				if err != nil {
+					return nil, nil, err
+				}
+			case "effectExtent":
+				effectExtent = parseEffectExtentAttrs(t.Attr)
+				if err := d.skipElement(decoder, t.Name.Local); err != nil {
+					return nil, nil, err
+				}
+			default:
+				if err := d.skipElement(decoder, t.Name.Local); err != nil {
+					return nil, nil, err
+				}
+			}
+		case xml.EndElement:
+			if t.Name.Local == endName {
+				return polygon, effectExtent, nil
+			}
+		}
+	}
+}
+
+// parseWrapPolygon 解析 wp:wrapPolygon
+func (d *Document) parseWrapPolygon(decoder *xml.Decoder) (*WrapPolygon, error) {
+	polygon := &WrapPolygon{}
+
+	for {
+		token, err := decoder.Token()
+		if err != nil {
+			return nil, WrapError("parse_wrap_polygon", err)
+		}
+
+		switch t := token.(type) {
+		case xml.StartElement:
+			switch t.Name.Local {
+			case "start":
+				polygon.Start = &PolygonStart{
+					X: getAttributeValue(t.Attr, "x"),
+					Y: getAttributeValue(t.Attr, "y"),
+				}
+			case "lineTo":
+				polygon.LineTo = append(polygon.LineTo, PolygonLineTo{
+					X: getAttributeValue(t.Attr, "x"),
+					Y: getAttributeValue(t.Attr, "y"),
+				})
+			}
+			if err := d.skipElement(decoder, t.Name.Local); err != nil {
+				return nil, err
+			}
+		case xml.EndElement:
+			if t.Name.Local == "wrapPolygon" {
+				return polygon, nil
+			}
+		}
+	}
+}
+
+// parseCNvGraphicFramePr 解析 wp:cNvGraphicFramePr 及其中的 a:graphicFrameLocks
+func (d *Document) parseCNvGraphicFramePr(decoder *xml.Decoder) (*CNvGraphicFramePr, error) {
+	framePr := &CNvGraphicFramePr{}
+
+	for {
+		token, err := decoder.Token()
+		if err != nil {
+			return nil, WrapError("parse_c_nv_graphic_frame_pr", err)
+		}
+
+		switch t := token.(type) {
+		case xml.StartElement:
+			if t.Name.Local == "graphicFrameLocks" {
+				locks := &GraphicFrameLocks{}
+				for _, attr := range t.Attr {
+					if attr.Name.Space == "xmlns" {
+						// 命名空间声明：只保留本库自己写出的 xmlns:a
+						if attr.Name.Local == "a" {
+							locks.Xmlns = attr.Value
+						}
+						continue
+					}
+					switch attr.Name.Local {
+					case "noChangeAspect":
+						locks.NoChangeAspect = attr.Value
+					case "noCrop":
+						locks.NoCrop = attr.Value
+					case "noMove":
+						locks.NoMove = attr.Value
+					case "noResize":
+						locks.NoResize = attr.Value
+					case "noRot":
+						locks.NoRot = attr.Value
+					case "noSelect":
+						locks.NoSelect = attr.Value
+					}
+				}
+				framePr.GraphicFrameLocks = locks
+			}
+			if err := d.skipElement(decoder, t.Name.Local); err != nil {
+				return nil, err
+			}
+		case xml.EndElement:
+			if t.Name.Local == "cNvGraphicFramePr" {
+				return framePr, nil
 			}
 		}
 	}
